@@ -29,7 +29,7 @@ class ListPattern(ptt.Pattern):
 class Pseq(ListPattern):
     def __init__(self, lst, repeats=1, offset=0):
         super().__init__(lst, repeats)
-        self.offset = int(offset)
+        self.offset = int(offset) % len(self.lst)
 
     def __embed__(self, inval):
         # if (inval.eventAt('reverse') == true, { # Not good.
